@@ -514,6 +514,16 @@ func (gb *gcpBalancer) UpdateSubConnState(sc balancer.SubConn, scs balancer.SubC
 		delete(gb.scRefs, oldSc)
 		delete(gb.scStates, oldSc)
 		gb.scRefs[sc] = scRef
+		for k, v := range gb.affinityMap {
+			if v == oldSc {
+				gb.affinityMap[k] = sc
+			}
+		}
+		for k, v := range gb.fallbackMap {
+			if v == oldSc {
+				gb.fallbackMap[k] = sc
+			}
+		}
 		scRef.subConn = sc
 		scRef.deCalls = 0
 		scRef.lastResp = time.Now()
